@@ -38,7 +38,7 @@ def short(n):
 
 def capture_origin(P, c, name):
     """roots (in the parent body) of the value captured as `name` by closure body c"""
-    parent = P.bodies.get(c.parent)
+    parent = (P.closure_parents(c) or [None])[0]
     if parent is None:
         return None, set()
     for i, blk in enumerate(parent.blocks):
@@ -509,7 +509,7 @@ def span_rules(P, chk):
     for b, bb, j, rv in ts:
         chk.analysed(b)
         where.append(b.key)
-        parent = P.bodies.get(b.parent) if b.is_closure else None
+        parent = (P.closure_parents(b) or [None])[0] if b.is_closure else None
         okb = b.is_closure and parent is not None and parent.key.endswith("Tracking as okane_core::syntax::decoration::Decoration>::decorate_parser") and \
             any(short(callee_def(t)) == "with_span" for bbx, t in parent.calls())
         rs = prov(b, rv["fields"][0]["op"])
